@@ -271,6 +271,79 @@ fn stripped_lens(s: &Sfnt, cl: &BTreeSet<u16>) -> String {
     join(cl.iter().map(|g| format!("{}:{}", g, s.glyph_bytes_lenient(*g).map(stripped_len).unwrap_or(0))), ",")
 }
 
+/// The byte runs of the ORIGINAL file the subsetter reads for this request, for the byte-level
+/// model: directory, head/hhea/maxp/post, and — whole tables for generated fonts, per-glyph
+/// entries for real fonts — loca, hmtx, glyf.  `<off>.<hex>,…` (sorted, merged).
+fn file_segs(bytes: &[u8], s: &Sfnt, cl: &BTreeSet<u16>, whole_tables: bool) -> String {
+    let flen = bytes.len();
+    let mut ranges: Vec<(usize, usize)> = vec![(0, 12 + 16 * s.tables.len())];
+    let tab = |t: &[u8; 4]| s.rec(t).map(|r| (r.offset as usize, r.offset as usize + r.length as usize));
+    for t in [b"head", b"hhea", b"maxp", b"post"] {
+        if let Some(r) = tab(t) {
+            ranges.push(r);
+        }
+    }
+    if let Some(h) = tab(b"head") {
+        ranges.push((h.0, h.0 + 54));
+    }
+    if whole_tables {
+        for t in [b"loca", b"hmtx", b"glyf"] {
+            if let Some(r) = tab(t) {
+                ranges.push(r);
+            }
+        }
+    }
+    let short = s.loca_format_raw() == Some(0);
+    let esz = if short { 2 } else { 4 };
+    let nh = s.rec(b"hhea").and_then(|h| be16(bytes, h.offset as usize + 34)).unwrap_or(0) as usize;
+    for &g in cl {
+        let g = g as usize;
+        if let (Some(lo), Some(gl)) = (s.rec(b"loca"), s.rec(b"glyf")) {
+            let idx = g * esz;
+            if idx + 2 * esz <= lo.length as usize {
+                let b = lo.offset as usize + idx;
+                ranges.push((b, b + 2 * esz));
+                let rd = |o: usize| if short { be16(bytes, o).map(|v| v as usize * 2) } else { be32(bytes, o).map(|v| v as usize) };
+                if let (Some(st), Some(en)) = (rd(b), rd(b + esz)) {
+                    if st < en {
+                        ranges.push((gl.offset as usize + st, gl.offset as usize + en));
+                    }
+                }
+            }
+        }
+        if let Some(hm) = s.rec(b"hmtx") {
+            let o = hm.offset as usize;
+            if g < nh {
+                ranges.push((o + g * 4, o + g * 4 + 4));
+            } else if nh > 0 {
+                ranges.push((o + (nh - 1) * 4, o + (nh - 1) * 4 + 2));
+                let l = o + nh * 4 + (g - nh) * 2;
+                ranges.push((l, l + 2));
+            }
+        }
+    }
+    let mut rs: Vec<(usize, usize)> =
+        ranges.into_iter().map(|(a, b)| (a.min(flen), b.min(flen))).filter(|(a, b)| a < b).collect();
+    rs.sort();
+    let mut merged: Vec<(usize, usize)> = Vec::new();
+    for r in rs {
+        match merged.last_mut() {
+            Some(l) if r.0 <= l.1 => l.1 = l.1.max(r.1),
+            _ => merged.push(r),
+        }
+    }
+    join(merged.iter().map(|(a, b)| format!("{}.{}", a, hex(&bytes[*a..*b]))), ",")
+}
+
+/// byte-level fields of a request (empty when the closure is too large to ship the bytes)
+fn byte_fields(id: &str, bytes: &[u8], s: &Sfnt, cl: &BTreeSet<u16>) -> String {
+    let gen = id.starts_with("gen-");
+    if !gen && cl.len() > 48 {
+        return String::new();
+    }
+    format!(" flen={} segs={}", bytes.len(), file_segs(bytes, s, cl, gen))
+}
+
 fn is_cff(s: &Sfnt) -> bool {
     s.rec(b"CFF ").is_some()
 }
@@ -293,7 +366,7 @@ fn make_tt(id: &str, used: &[u32], with_all: bool) -> Option<String> {
     let facts = orig_facts(&s, &cl)?;
     let all = if with_all { join(cmap.iter().map(|(c, g)| format!("{}:{}", c, g)), ",") } else { "?".into() };
     Some(format!(
-        "tt font={} used={} size={} ng={} cff=0 lf={} sl={} cmap={} allcmap={} g={}",
+        "tt font={} used={} size={} ng={} cff=0 lf={} sl={} cmap={} allcmap={} g={}{}",
         id,
         join(used.iter(), ","),
         bytes.len(),
@@ -302,7 +375,8 @@ fn make_tt(id: &str, used: &[u32], with_all: bool) -> Option<String> {
         stripped_lens(&s, &cl),
         join(mapped.iter().map(|(c, g)| format!("{}:{}", c, g)), ","),
         all,
-        facts
+        facts,
+        byte_fields(id, &bytes, &s, &cl)
     ))
 }
 
@@ -313,13 +387,14 @@ fn make_tg(id: &str, used: &[u16]) -> Option<String> {
     init.insert(0);
     let cl = closure_of(&s, &init);
     Some(format!(
-        "tg font={} used={} cff={} lf={} sl={} g={}",
+        "tg font={} used={} cff={} lf={} sl={} g={}{}",
         id,
         join(used.iter(), ","),
         is_cff(&s) as u8,
         s.loca_format().unwrap_or(1),
         if is_cff(&s) { "-".to_string() } else { stripped_lens(&s, &cl) },
-        if is_cff(&s) { "-".to_string() } else { orig_facts(&s, &cl)? }
+        if is_cff(&s) { "-".to_string() } else { orig_facts(&s, &cl)? },
+        if is_cff(&s) { String::new() } else { byte_fields(id, &bytes, &s, &cl) }
     ))
 }
 
@@ -356,6 +431,8 @@ fn subset_facts(data: &[u8]) -> String {
 
 fn run(req: &str) -> String {
     let op = req.split(' ').next().unwrap_or("");
+    let want_bytes = field(req, "segs").is_some();
+    let bytes_out = |d: &[u8]| if want_bytes { format!(" bytes={}", hex(d)) } else { String::new() };
     let (Some(id), Some(used)) = (field(req, "font"), field(req, "used").and_then(parse_list)) else {
         return "bad-request".into();
     };
@@ -372,7 +449,7 @@ fn run(req: &str) -> String {
                     } else if r.is_raw_cff {
                         format!("kind=rawcff map={} {}", show_map(&map), cff::cff_facts(&r.font_data, &map))
                     } else {
-                        format!("kind=subset map={} {}", show_map(&map), subset_facts(&r.font_data))
+                        format!("kind=subset map={} {}{}", show_map(&map), subset_facts(&r.font_data), bytes_out(&r.font_data))
                     }
                 }
             }
@@ -383,7 +460,7 @@ fn run(req: &str) -> String {
                 Err(_) => "err:subset".into(),
                 Ok(r) => {
                     let map: BTreeMap<u32, u16> = r.old_to_new.iter().map(|(c, g)| (*c as u32, *g)).collect();
-                    format!("kind=subset map={} {}", show_map(&map), subset_facts(&r.font_data))
+                    format!("kind=subset map={} {}{}", show_map(&map), subset_facts(&r.font_data), bytes_out(&r.font_data))
                 }
             }
         }
